@@ -17,7 +17,7 @@ PID = 'C20'
 META = {
     'functions_encoded': ['pydl.photoop.window.window_score', 'pydl.pydlspec2d.spec1d.template_metadata',
                           'pydl.pydlspec2d.spec1d.template_input'],
-    'stubs': ['os.environ -> mapping stub with symbolic initial presence of PHOTO_CALIB, PHOTO_RESOLVE, RUN2D, RUN1D',
+    'stubs': ['os.environ -> mapping stub with symbolic initial state (absent / set / set to the empty string) of PHOTO_CALIB, PHOTO_RESOLVE, RUN2D, RUN1D',
               'os.path.exists / os.remove / open / pickle / fits.open / HDUList.writeto / close / sdss_score / yanny / readspec / '
               'skymask / preprocess_spectra / wavevector / pca_solve / HMF / template_qso / template_star / plot_eig / get_juldate / '
               'matplotlib / fits.PrimaryHDU / fits.BinTableHDU / fits.Column: fault-oracle stubs (return a benign value, or raise when '
@@ -148,10 +148,12 @@ class SymEnviron(object):
         if key not in self.entry:
             if key in TOUCHED:
                 present = bool(self.ctx.bool('has_' + key))
+                # a variable can also be present with an empty value ('' is falsy: a restore must not confuse it with absent)
+                empty = present and bool(self.ctx.bool('empty_' + key))
             else:
-                present = False
+                present = empty = False
                 self.other_touched.append(key)
-            self.entry[key] = ('entry:' + key) if present else None
+            self.entry[key] = ('' if empty else 'entry:' + key) if present else None
             self.cur[key] = self.entry[key]
 
     def __getitem__(self, key):
@@ -193,7 +195,7 @@ class RealEnviron(object):
         self.saved = {k: os.environ.get(k) for k in TOUCHED}
         for k in TOUCHED:
             if presence.get(k, False):
-                os.environ[k] = 'entry:' + k
+                os.environ[k] = '' if presence.get('empty_' + k, False) else 'entry:' + k
             else:
                 os.environ.pop(k, None)
         self.before = dict(os.environ)
@@ -432,6 +434,7 @@ def replay(rec):
     F = int(inp.get('fault_call', 0))
     kind = d.get('exc_kind', 'InjectedFault')
     presence = {k: bool(inp.get('has_' + k, False)) for k in TOUCHED}
+    presence.update({'empty_' + k: bool(inp.get('empty_' + k, False)) for k in TOUCHED})
 
     def choose(name, options):
         return options[int(inp.get('choice:' + name, 0))]
